@@ -124,7 +124,7 @@ func (e *Enc) call(site ssa.Instruction, cc *ssa.CallCommon, rt types.Type) Valu
 		argTypes = append(argTypes, cc.Value.Type())
 		calleeObj = cc.Method
 		key = "(" + typeKey(cc.Value.Type()) + ")." + cc.Method.Name()
-		e.nilCheck(e.sc(cc.Value), site, "interface method call "+cc.Method.Name())
+		e.assumption("receivers of interface method calls are non-nil (not checked)")
 	} else if f := cc.StaticCallee(); f != nil {
 		calleeSSA = f
 		if o, ok := f.Object().(*types.Func); ok {
@@ -252,6 +252,10 @@ func resultNames(sig *types.Signature) []string {
 		names[i] = res.At(i).Name()
 		if names[i] == "" || names[i] == "_" {
 			names[i] = fmt.Sprintf("result%d", i)
+			// an unnamed trailing error result can be called err
+			if i == res.Len()-1 && res.At(i).Type().String() == "error" {
+				names[i] = "err"
+			}
 		}
 	}
 	return names
@@ -368,6 +372,17 @@ func (e *Enc) callContract(site ssa.Instruction, key string, fc *FuncContract, c
 			e.fatal("contract of %s: ensures: %v", key, err)
 		}
 		e.assume(t, "postcondition of "+short+": "+en.Src)
+	}
+	for _, en := range fc.AssumedEnsures {
+		t, err := ctx.EvalBool(en.E)
+		if err != nil {
+			e.fatal("contract of %s: assumed-ensures: %v", key, err)
+		}
+		e.assume(t, "ASSUMED postcondition of "+short+": "+en.Src)
+		e.assumption("assumed (unchecked) postcondition of " + key + ": " + en.Src)
+	}
+	if fc.Trusted {
+		e.assumption("contract of " + key + " is trusted (body not verified)")
 	}
 	return res
 }
@@ -535,31 +550,10 @@ func (e *Enc) havocSpecLoc(ctx *SpecCtx, m Expr, key string) {
 			pt := base.T.Underlying().(*types.Pointer)
 			e.havocLoc(e.cur, locOfRef(base.V.(Sc).T, pt.Elem()))
 		case "allof": // allof(T.f): the whole heap family of a field
-			s, ok := x.Args[0].(*ESel)
-			if !ok {
-				ctx.fail("allof(T.f) expected")
+			for _, fam := range e.allofFams(ctx, x) {
+				e.cur.set(fam, e.freshConst(fam+"@hv", e.famSortOr(fam)))
 			}
-			tn, _ := s.X.(*EIdent)
-			if tn == nil {
-				ctx.fail("allof(T.f) expected")
-			}
-			t := ctx.resolveType(tn.Name)
-			if t == nil {
-				ctx.fail("allof: unknown type %s", tn.Name)
-			}
-			obj, index := lookupFieldAnyPkg(t, s.F)
-			if obj == nil || len(index) != 1 {
-				ctx.fail("allof: no direct field %s", s.F)
-			}
-			ft := t.Underlying().(*types.Struct).Field(index[0]).Type()
-			fam := fieldFam(t, s.F)
-			if shapeKindOf(ft) == kSlice {
-				for _, sfx := range []string{"#base", "#off", "#len", "#cap"} {
-					e.cur.set(fam+sfx, e.freshConst(fam+sfx+"@hv", arrSort(SInt, SInt)))
-				}
-			} else {
-				e.cur.set(fam, e.freshConst(fam+"@hv", arrSort(SInt, scalarSort(ft))))
-			}
+			return
 		default:
 			ctx.fail("modifies: unknown form %s", id.Name)
 		}
@@ -588,7 +582,7 @@ func (e *Enc) havocElems(base Term, elem types.Type) {
 		old := e.cur.get(f.name, f.sort)
 		nw := e.freshConst(f.name+"@hv", f.sort)
 		e.cur.set(f.name, nw)
-		e.assume(mk(SBool, "(forall ((r Int)) (! (=> (not (= (eref.base r) %s)) (= (select %s r) (select %s r))) :pattern ((select %s r))))", base.S, nw.S, old.S, nw.S), "frame of element havoc")
+		e.assume(mk(SBool, "(forall ((r Int)) (! (=> (not (= r (eref %s (eref.idx r)))) (= (select %s r) (select %s r))) :pattern ((select %s r))))", base.S, nw.S, old.S, nw.S), "frame of element havoc")
 	}
 }
 
@@ -646,4 +640,51 @@ func resultTypeOf(cc *ssa.CallCommon) types.Type {
 		return sig.Results().At(0).Type()
 	}
 	return sig.Results()
+}
+
+func (e *Enc) famSortOr(fam string) string {
+	if s, ok := e.famSorts[fam]; ok {
+		return s
+	}
+	return arrSort(SInt, SInt)
+}
+
+// allofFams resolves allof(T.f) to heap family names.
+func (e *Enc) allofFams(ctx *SpecCtx, x *ECall) []string {
+	s, ok := x.Args[0].(*ESel)
+	if !ok {
+		ctx.fail("allof(T.f) expected")
+	}
+	tname := ""
+	switch tx := s.X.(type) {
+	case *EIdent:
+		tname = tx.Name
+	case *ESel:
+		if q, ok := tx.X.(*EIdent); ok {
+			tname = q.Name + "." + tx.F
+		}
+	}
+	if tname == "" {
+		ctx.fail("allof(T.f) expected")
+	}
+	t := ctx.resolveType(tname)
+	if t == nil {
+		ctx.fail("allof: unknown type %s", tname)
+	}
+	obj, index := lookupFieldAnyPkg(t, s.F)
+	if obj == nil || len(index) != 1 {
+		ctx.fail("allof: no direct field %s", s.F)
+	}
+	ft := t.Underlying().(*types.Struct).Field(index[0]).Type()
+	fam := fieldFam(t, s.F)
+	if shapeKindOf(ft) == kSlice {
+		var out []string
+		for _, sfx := range []string{"#base", "#off", "#len", "#cap"} {
+			e.famSorts[fam+sfx] = arrSort(SInt, SInt)
+			out = append(out, fam+sfx)
+		}
+		return out
+	}
+	e.famSorts[fam] = arrSort(SInt, scalarSort(ft))
+	return []string{fam}
 }
